@@ -120,18 +120,27 @@ def upToDot (s : List Char) : Option (Int × List Char) :=
     else (atoi h).map (·, r)
   | (_, none) => (atoi s).map (·, [])
 
-/-- `rhctag.Parse`. -/
-def parse (s : List Char) : Option Tag :=
-  let canonical := match s with | 'v' :: r => r | _ => s
-  let canonical := match cut '-' canonical with
-    | (h, some _) => if h.isEmpty then canonical else h     -- dashIndex > 0
-    | (_, none) => canonical
+/-- `strings.HasPrefix(s, "v")` ⇒ `s[1:]`. -/
+def stripV : List Char → List Char
+  | 'v' :: r => r
+  | s => s
+
+/-- "strip revision": cut at the first `-` when it is not the first byte
+    (`dashIndex > 0`). -/
+def stripRev (c : List Char) : List Char :=
+  if (cut '-' c).2.isSome && !(cut '-' c).1.isEmpty then (cut '-' c).1 else c
+
+/-- The two `upToDot` calls of `Parse` on the canonical text. -/
+def parseCanon (s canonical : List Char) : Option Tag :=
   match upToDot canonical with
   | none => none
-  | some (major, rem) =>
-    match upToDot rem with
-    | none => some { original := s, major := major, minor := 0 }
-    | some (minor, _) => some { original := s, major := major, minor := minor }
+  | some mr =>
+    match upToDot mr.2 with
+    | none => some { original := s, major := mr.1, minor := 0 }
+    | some nr => some { original := s, major := mr.1, minor := nr.1 }
+
+/-- `rhctag.Parse`. -/
+def parse (s : List Char) : Option Tag := parseCanon s (stripRev (stripV s))
 
 /-- `(*Version).Version(min)`. -/
 def project (t : Tag) (min : Bool) : Version :=
@@ -164,5 +173,43 @@ def plain (v : Bool) (t : Tag) : Bool :=
       | .num dm :: _ => decide ((natOfDigits dm : Int) = t.minor) && decide (t.minor < 2147483648)
       | _ => false)
    | _ => false)
+
+/-! ### the same fragment recognised on the text alone -/
+
+/-- End of the text, or a `-` (start of the release). -/
+def endOrDash : List Char → Bool
+  | [] => true
+  | c :: _ => c = '-'
+
+/-- End of the text, a `-` or a `.`. -/
+def endDashDot : List Char → Bool
+  | [] => true
+  | c :: _ => c = '-' || c = '.'
+
+/-- `digits`, `digits.` or `digits.digits` followed by the end of the text, a
+    `-` (or, after the second number, a `.`): the two numbers (the second is 0
+    when absent). -/
+def shapeBody (s : List Char) : Option (Nat × Nat) :=
+  if (spanP isDigit s).1.isEmpty then none else
+  match (spanP isDigit s).2 with
+  | '.' :: r1 =>
+    if (spanP isDigit r1).1.isEmpty then
+      (if endOrDash r1 then some (natOfDigits (spanP isDigit s).1, 0) else none)
+    else if endDashDot (spanP isDigit r1).2 then
+      some (natOfDigits (spanP isDigit s).1, natOfDigits (spanP isDigit r1).1)
+    else none
+  | r => if endOrDash r then some (natOfDigits (spanP isDigit s).1, 0) else none
+
+def hasV : List Char → Bool
+  | 'v' :: _ => true
+  | _ => false
+
+/-- The string-level fragment: no `:` anywhere, an optional `v`, then
+    `shapeBody` with both numbers below 2^31.  Returns (v present, Major, Minor). -/
+def shapeNums (s : List Char) : Option (Bool × Nat × Nat) :=
+  if s.contains ':' then none else
+  match shapeBody (stripV s) with
+  | none => none
+  | some mm => if mm.1 < 2147483648 && mm.2 < 2147483648 then some (hasV s, mm.1, mm.2) else none
 
 end ClairModel.RhcTag
